@@ -61,6 +61,11 @@ def check(run):
     from . import C15 as _C15
     R.rule('C02.timers', 'housekeeping is a function of time, not of the number of reads: disabled timeouts stay disabled, an '
                          'automatic ping moves its schedule into the future', 8)
+    from . import C04 as _C04, C08 as _C08
+    with R.as_rule('C02.P3'):
+        _C04.once(R)             # after a protocol violation nothing of a later read is parsed either (forced disconnect)
+        _C08.server(R)           # Closing / Closed is decided when the Close frame is handled, not once per read
+        _C08.client(R)
     with R.as_rule('C02.timers'):
         _C15.ping(R)
         _C15.close(R, RID='C02.timers', rearm=False)
